@@ -844,6 +844,8 @@ def conv1d(x:Tensor, weight:Tensor, bias:Tensor=None, stride:int=1, padding:int=
     
     if bias is not None and not isinstance(bias, Tensor):
         raise TypeError(f"Expected bias to be a Tensor but got {type(bias)}")
+    if bias is not None and tuple(bias.shape) != (weight.shape[0],): # anything else would broadcast silently
+        raise ValueError(f"Expected bias to be 1-dimensional with {weight.shape[0]} elements, but got {tuple(bias.shape)}")
     
     if x.device == Device.CPU:
         bias_data = bias.data if bias is not None else None
@@ -905,6 +907,8 @@ def conv2d(x:Tensor, weight:Tensor, bias:Tensor=None, stride=1, padding=0, dilat
     
     if bias is not None and not isinstance(bias, Tensor):
         raise TypeError(f"Expected bias to be a Tensor but got {type(bias)}")
+    if bias is not None and tuple(bias.shape) != (weight.shape[0],): # anything else would broadcast silently
+        raise ValueError(f"Expected bias to be 1-dimensional with {weight.shape[0]} elements, but got {tuple(bias.shape)}")
     
     if x.device == Device.CPU:
         bias_data = bias.data if bias is not None else None
